@@ -157,6 +157,20 @@ CLAIMS["C16"] = (
     "(which annotations a class carries, overriden_types) is tied by behaviour only. TypeVarTuple is not modelled.",
     "DESIGN.md section 5 C16", TECH)
 
+CLAIMS["C11"] = (
+    "Proof: C11_history_independent - in the model of the per-retort call cache (requests are trees of cached_call sites, "
+    "keys compared as the dict compares them, sub-closures by identity) if every site is key-sound then from ANY state "
+    "reachable from an empty cache a request returns a closure meaning exactly what a fresh retort would build, and keeps "
+    "the invariant; C11_all_sites_audited / C11_cache_is_the_modelled_one tie the premise to the code: the list of "
+    "mediator.cached_call sites and the body of BuiltinMediator.cached_call are regenerated from /repo on every run and must "
+    "equal the reviewed table (47 sites, every key argument classified). Behavioural tie: on one retort, requests for A then "
+    "25 probe loads for B compared with a fresh retort over ordered pairs of 55 mutually confusable types, random longer "
+    "histories with failing requests and lru eviction, replace()/extend() on used and unused retorts, per-call conversion recipes.",
+    "Trusted: Coq kernel, the ast translator of call sites, the review classifying each key argument (recorded in "
+    "Proofs/CacheSites.v). Hash/eq of typing objects, functools.lru_cache and the exec'd closures are observed by behaviour "
+    "only; thread interleavings are C12's subject.",
+    "DESIGN.md section 5 C11", TECH)
+
 NOT_YET = "check not built yet in this session (DESIGN.md section 10 build order); not claimed until its model, theorems and correspondence exist"
 
 
